@@ -575,13 +575,15 @@ func Mul(a, b *Term) *Term {
 		if a.V.Cmp(big.NewInt(1)) == 0 {
 			return b
 		}
-		if b.Op == "+" {
+		if b.Op == "+" && a.V.Cmp(big.NewInt(-1)) == 0 {
 			r := IntLit(0)
 			for _, x := range b.Args {
 				r = Add(r, Mul(a, x))
 			}
 			return r
 		}
+		// (no distribution of other literals over sums: `size * (i+1)` must keep
+		// matching the pattern `size * k` of quantified element facts)
 		if b.Op == "neg" {
 			return Mul(IntBig(new(big.Int).Neg(a.V)), b.Args[0])
 		}
@@ -1046,6 +1048,53 @@ func anyFreeBound(t *Term) bool {
 	return len(bs) > 0
 }
 
+// ForallPat: universally quantified formula with an explicit single multi-pattern.
+func ForallPat(bound []*Term, body *Term, pats ...*Term) *Term {
+	if body == True {
+		return True
+	}
+	t := P.intern(&Term{Op: "forall", Args: append([]*Term{body}, pats...), Bound: bound, S: BoolS})
+	t.hasB = anyFreeBound(t)
+	return t
+}
+
+// freeBounds: bound variables occurring free in t.
+func freeBounds(t *Term) []*Term {
+	var out []*Term
+	seen := map[*Term]bool{}
+	var walk func(x *Term, scope map[*Term]bool)
+	walk = func(x *Term, scope map[*Term]bool) {
+		if !x.hasB {
+			return
+		}
+		if x.Op == "bound" {
+			if !scope[x] && !seen[x] {
+				seen[x] = true
+				out = append(out, x)
+			}
+			return
+		}
+		if x.Op == "forall" || x.Op == "exists" {
+			ns := map[*Term]bool{}
+			for k := range scope {
+				ns[k] = true
+			}
+			for _, b := range x.Bound {
+				ns[b] = true
+			}
+			for _, a := range x.Args {
+				walk(a, ns)
+			}
+			return
+		}
+		for _, a := range x.Args {
+			walk(a, scope)
+		}
+	}
+	walk(t, map[*Term]bool{})
+	return out
+}
+
 // ---- FP (binary64), minimal
 
 func FPOp(op string, s *Sort, args ...*Term) *Term {
@@ -1146,6 +1195,9 @@ func rebuild(x *Term, a []*Term) *Term {
 	case "concat":
 		return Concat(a[0], a[1])
 	case "forall":
+		if len(a) > 1 {
+			return ForallPat(x.Bound, a[0], a[1:]...)
+		}
 		return Forall(x.Bound, a[0])
 	case "exists":
 		return Exists(x.Bound, a[0])
@@ -1177,7 +1229,50 @@ func litStr(t *Term) string {
 	return t.Op
 }
 
+// printAbstract: render bit-vector multiplication and the Int<->BitVec
+// conversions as uninterpreted functions (a sound weakening used as an extra
+// portfolio variant; the bridge facts carry what is needed of their meaning).
+var printAbstractMul bool
+var absDecls = map[string]string{}
+
 func printTerm(sb *strings.Builder, t *Term, named map[int]string) {
+	if printAbstractMul {
+		var fn string
+		switch t.Op {
+		case "bvmul":
+			w := t.S.W
+			fn = fmt.Sprintf("umul!%d", w)
+			absDecls[fn] = fmt.Sprintf("(declare-fun %s ((_ BitVec %d) (_ BitVec %d)) (_ BitVec %d))", fn, w, w, w)
+		case "bv2nat":
+			w := t.Args[0].S.W
+			fn = fmt.Sprintf("b2n!%d", w)
+			absDecls[fn] = fmt.Sprintf("(declare-fun %s ((_ BitVec %d)) Int)", fn, w)
+		case "sbv2int":
+			w := t.Args[0].S.W
+			fn = fmt.Sprintf("sb2i!%d", w)
+			absDecls[fn] = fmt.Sprintf("(declare-fun %s ((_ BitVec %d)) Int)", fn, w)
+		case "int2bv":
+			w := t.S.W
+			fn = fmt.Sprintf("i2b!%d", w)
+			absDecls[fn] = fmt.Sprintf("(declare-fun %s (Int) (_ BitVec %d))", fn, w)
+		}
+		if fn != "" {
+			if named != nil {
+				if n, ok := named[t.id]; ok {
+					sb.WriteString(n)
+					return
+				}
+			}
+			sb.WriteByte('(')
+			sb.WriteString(fn)
+			for _, a := range t.Args {
+				sb.WriteByte(' ')
+				printTerm(sb, a, named)
+			}
+			sb.WriteByte(')')
+			return
+		}
+	}
 	if named != nil {
 		if n, ok := named[t.id]; ok {
 			sb.WriteString(n)
@@ -1209,7 +1304,20 @@ func printTerm(sb *strings.Builder, t *Term, named map[int]string) {
 			fmt.Fprintf(sb, "(%s %s)", b.Name, b.S)
 		}
 		sb.WriteString(") ")
-		printTerm(sb, t.Args[0], named)
+		if len(t.Args) > 1 {
+			sb.WriteString("(! ")
+			printTerm(sb, t.Args[0], named)
+			sb.WriteString(" :pattern (")
+			for i, p := range t.Args[1:] {
+				if i > 0 {
+					sb.WriteByte(' ')
+				}
+				printTerm(sb, p, named)
+			}
+			sb.WriteString("))")
+		} else {
+			printTerm(sb, t.Args[0], named)
+		}
 		sb.WriteByte(')')
 	case "neg":
 		sb.WriteString("(- ")
@@ -1302,6 +1410,7 @@ func (s *Script) Render(logic string, models bool) string {
 		sb.WriteString(P.decls[n])
 		sb.WriteByte('\n')
 	}
+	declPos := sb.Len()
 	sb.WriteString(pre)
 	if pre != "" {
 		sb.WriteByte('\n')
@@ -1330,7 +1439,16 @@ func (s *Script) Render(logic string, models bool) string {
 		}
 		sb.WriteString("))\n")
 	}
-	return sb.String()
+	out := sb.String()
+	if printAbstractMul && len(absDecls) > 0 {
+		var d strings.Builder
+		for _, k := range sortedKeys(absDecls) {
+			d.WriteString(absDecls[k])
+			d.WriteByte('\n')
+		}
+		out = out[:declPos] + d.String() + out[declPos:]
+	}
+	return out
 }
 
 func sortedKeys[M ~map[string]V, V any](m M) []string {
